@@ -36,7 +36,8 @@ ASSUMPTIONS = [
 ]
 NSHARDS = {'quick': 16, 'thorough': 16}
 
-KINDS = ['builtin', 'builtin_called', 'user', 'user_called', 'dotted', 'module', 'coroutine', 'assert']
+KINDS = ['builtin', 'builtin_called', 'user', 'user_called', 'dotted', 'module', 'coroutine', 'assert', 'noted', 'syntax',
+         'group', 'chained']
 MSGS = {'empty': None, 'plain': 'some detail', 'colons': 'a: b: c', 'multi': 'line1\nline2', 'dots': 'pre ... post'}
 POSITIONS = ['first', 'middle', 'last']
 WANTS = ['none', 'exact', 'stack', 'wrongmsg', 'wrongtype', 'nontb', 'ellipsis', 'exact_noraise']
@@ -49,6 +50,16 @@ def raiser(cls, *a):
 async def araiser(cls, *a):
     await _asyncio.sleep(0)
     raise cls(*a)
+def raiser_noted(cls, *a):
+    e = cls(*a)
+    e.add_note("note one")
+    e.add_note("second note")
+    raise e
+def raiser_from(cls, *a):
+    try:
+        1 / 0
+    except ZeroDivisionError as ex:
+        raise cls(*a) from ex
 '''
 
 
@@ -94,6 +105,16 @@ def raising_source(kind, msg):
         return [], 'await araiser(LookupError%s)' % cm
     if kind == 'assert':
         return [], 'assert False, %s' % (m or '""')
+    if kind == 'noted':
+        # notes attached to the exception (PEP 678) are printed under the message line
+        return [], 'raiser_noted(ValueError%s)' % cm
+    if kind == 'syntax':
+        # raised by the compiler at run time: its report has source context lines before the message
+        return [], 'compile("x = = 1", %s, "exec")' % (m or '"<s>"')
+    if kind == 'group':
+        return [], 'raise ExceptionGroup(%s, [ValueError(1), KeyError(2)])' % (m or '"eg"')
+    if kind == 'chained':
+        return [], 'raiser_from(KeyError%s)' % cm
     raise KeyError(kind)
 
 
@@ -117,7 +138,8 @@ def true_line(kind, msg):
             else:
                 exec(code, ns)
         except Exception as ex:
-            _TRUE[key] = (traceback.format_exception_only(type(ex), ex)[-1].rstrip('\n'), type(ex).__name__)
+            from xv import models
+            _TRUE[key] = (models.exception_text(ex), type(ex).__name__)
         else:
             raise AssertionError('did not raise: %s' % src)
     return _TRUE[key]
@@ -181,7 +203,8 @@ def build(kind, mk, pos, wf, flags, ctxno):
     else:
         L.append('>>> quiet(%d)' % k)
     before.append(rid)
-    tname = line.split(':')[0] if ':' in line else line
+    first = line.split('\n')[0]
+    tname = first.split(':')[0] if ':' in first else first
     hdr = 'Traceback (most recent call last):'
     if wf == 'none':
         want = []
@@ -318,8 +341,10 @@ def all_cells():
     cells = []
     for kind in KINDS:
         for mk in MSGS:
-            if kind == 'assert' and mk == 'empty':
+            if kind in ('assert', 'noted', 'syntax', 'group') and mk == 'empty':
                 continue
+            if kind == 'syntax' and mk != 'plain':
+                continue        # the compiler words the message itself
             for pos in POSITIONS:
                 for wf in WANTS:
                     for flags in FLAGSETS:
